@@ -1,5 +1,8 @@
 (* Contract theorems of Batch.v (HpcSubmitter._make_batch, _submit_batches, group loop).
-   All statements are for arbitrary candidate lists and parameters: induction over the lists. *)
+   All statements are for arbitrary candidate lists and parameters: induction over the lists.
+   Lemmas cited by other properties (C01): make_batch_batch_nodup, make_batch_rest_disjoint,
+   submit_round_disjoint, batch_index_fresh, submit_round_slots (also: make_batch_contract, make_batch_cover,
+   submit_round_inv, submit_round_batches, submit_round_maximal, submit_round_fuel, round_batch_*). *)
 From Coq Require Import List ZArith NArith Bool Arith Lia Permutation.
 From Jade Require Import Base Batch.
 From Jade.Gen Require Import BatchGen.
@@ -18,10 +21,6 @@ Definition closed (l : list cjob) : Prop :=
   forall j, In j l -> forall d, In d (jblocked j) -> In d (names l).
 Definition blocked_only_if_try (p : gparams) (l : list cjob) : Prop :=
   forall j, In j l -> jblocked j <> [] -> g_try p = true.
-
-(* parameters that JADE's own validation guarantees: batch size >= 1, limit >= 0 *)
-Definition params_ok (p : gparams) : Prop :=
-  if g_time p then 0 <= g_max p else (1 <= g_size p)%N.
 
 Lemma names_app a b : names (a ++ b) = (names a ++ names b)%list.
 Proof. apply map_app. Qed.
